@@ -49,6 +49,10 @@ type c54Case struct {
 	MethodReply []byte `json:"method_reply"`
 	AuthReply   []byte `json:"auth_reply,omitempty"`
 	ConnReply   []byte `json:"conn_reply"`
+
+	// ReadMax > 0: the (inline) server's bytes reach the client in segments of at
+	// most ReadMax bytes per Read call, as on a slow or segmenting network.
+	ReadMax int `json:"read_max,omitempty"`
 }
 
 // ---- reference server (RFC 1928 section 3-6, RFC 1929 section 2) ----
@@ -221,6 +225,9 @@ func (c *c54Conn) Read(p []byte) (int, error) {
 			c.s.closed = true
 			return 0, io.EOF
 		}
+	}
+	if m := c.s.c.ReadMax; m > 0 && len(p) > m {
+		p = p[:m]
 	}
 	n := copy(p, c.s.out)
 	c.s.out = c.s.out[n:]
@@ -756,6 +763,7 @@ func c54Gen(t *rapid.T) c54Case {
 		API:       rapid.SampledFrom([]int{0, 0, 0, 1, 1, 2, 3, 4}).Draw(t, "api"),
 		CancelCtx: rapid.Bool().Draw(t, "cancelCtx"),
 		Pipe:      rapid.IntRange(0, 7).Draw(t, "pipe") == 0,
+		ReadMax:   rapid.SampledFrom([]int{0, 0, 0, 1, 2, 3, 5, 7}).Draw(t, "readMax"),
 		Auth:      rapid.IntRange(0, 2).Draw(t, "auth") == 0,
 	}
 	if rapid.IntRange(0, 29).Draw(t, "port0") == 29 {
